@@ -22,7 +22,11 @@ def mx(a, b):
 
 ONCE = {"std::option::Option::map", "std::option::Option::and_then", "std::result::Result::map", "std::result::Result::map_err",
         "std::result::Result::unwrap_or_else", "std::option::Option::unwrap_or_else", "std::option::Option::map_or",
-        "std::option::Option::ok_or_else", "std::option::Option::filter"}
+        "std::option::Option::ok_or_else", "std::option::Option::filter", "std::result::Result::and_then",
+        "std::result::Result::map_or", "std::result::Result::map_or_else", "std::option::Option::map_or_else",
+        "core::bool::<impl bool>::then", "std::option::Option::is_some_and", "std::result::Result::is_ok_and",
+        "std::option::Option::or_else", "std::result::Result::or_else", "std::option::Option::get_or_insert_with"}
+# (each of these std combinators calls the closure it is given at most once)
 
 
 class HashCost:
